@@ -141,6 +141,28 @@ def traced_container_fails(case):
     return None
 
 
+def vector_elements_fails(case):
+    """a container (object array or list) whose elements are VECTOR-valued polynomials: both converters stack them, every element
+    is found again unchanged (result shape = container shape + element shape)"""
+    a, b = np.array(case['a']), np.array(case['b'])
+    els = [UTPM(a.copy()), UTPM(b.copy())]
+    if case['container'] == 'object-array':
+        c = np.empty(2, dtype=object)
+        c[0], c[1] = els
+    else:
+        c = els
+    for name, f in (('as_utpm', UTPM.as_utpm), ('ndarray2utpm', utils.ndarray2utpm)):
+        try:
+            y = f(c)
+        except Exception as ex:
+            return '%s-vector-elements-exception: raised %s for a %s of vector-valued polynomials' % (name, type(ex).__name__ + ':' + str(ex)[:60], case['container'])
+        want = np.stack([a, b], axis=2)
+        if y.data.shape != want.shape or not np.array_equal(y.data, want):
+            return '%s-vector-elements: a %s of two polynomials of shape %s gives a coefficient array of shape %s (expected %s): elements are not found again' % (
+                name, case['container'], a.shape[2:], y.data.shape, want.shape)
+    return None
+
+
 def traced_roundtrip_fails(case):
     """the round trip symvec(vecsym(v), UPLO) recorded on the tracer: lossless in forward mode, and its reverse sweep hands the
     seed back unchanged (the round trip is the identity map, so is its adjoint) -- for every storage convention"""
@@ -161,6 +183,8 @@ def traced_roundtrip_fails(case):
 
 
 def run_one(ctx, case):
+    if case['op'] == 'vector-elements':
+        return vector_elements_fails(case)
     if case['op'] == 'traced-roundtrip':
         return traced_roundtrip_fails(case)
     if case['op'] == 'traced-container':
@@ -451,6 +475,18 @@ def run(ctx):
             f = 'exception-%s: %s' % (case['op'], type(ex).__name__ + ':' + str(ex)[:100])
         if f:
             ctx.report(case, 'failure', f)
+    for container in ('object-array', 'list'):
+        for D_, P_, sh in ((2, 1, (4,)), (1, 2, (2, 2)), (2, 2, (1,))):
+            case = {'op': 'vector-elements', 'container': container, 'D': D_, 'P': P_, 'a': rand_coeffs(ctx.rng, (D_, P_) + sh, -2, 2),
+                    'b': rand_coeffs(ctx.rng, (D_, P_) + sh, -2, 2)}
+            ctx.evaluations += 1
+            ctx.count('op=vector-elements')
+            try:
+                f = run_one(ctx, case)
+            except Exception as ex:
+                f = 'exception-%s: %s' % (case['op'], type(ex).__name__ + ':' + str(ex)[:100])
+            if f:
+                ctx.report(case, 'failure', f)
     for L_ in (3, 6):
         for D_, P_ in ((1, 1), (2, 2)):
             case = {'op': 'traced-roundtrip', 'D': D_, 'P': P_, 'v': rand_coeffs(ctx.rng, (D_, P_, L_), -2, 2), 'wbar': rand_coeffs(ctx.rng, (D_, P_, L_), -2, 2) + 0.125}
